@@ -56,7 +56,12 @@ def decode_flat(enc_array):
         return np.asarray(enc_array.raw())
     if not enc.is_one_to_one_encoding():
         raise ObserverError('non one-to-one encoding %r' % (enc,))
-    return np.asarray(enc.decode(enc_array).raw())
+    try:
+        return np.asarray(enc.decode(enc_array).raw())
+    except Exception as e:
+        # the library cannot decode an array it produced itself (codes outside the encoding's alphabet):
+        # an observation about bionumpy, not an observer failure
+        raise MalformedLibraryValue('undecodable %s array: %s: %s' % (enc, type(e).__name__, str(e)[:120]))
 
 
 def column(c):
